@@ -166,7 +166,10 @@ fn rowan_comprehension_laxity(run: &Run, code: &str, ir: &Result<String, String>
 			_ => false,
 		}
 	} else {
-		same_depth_has_for(lex_tokens(&code[off + 2..]), false)
+		// an `if` spec where the element of an array / the field of an object has just ended (with or without a
+		// `for` spec after it): the token before it must end an operand, so it is not the `if` of a conditional
+		let _ = &same_depth_has_for;
+		lex_tokens(&code[..off]).last().is_some_and(ends_operand)
 	}
 }
 
@@ -251,7 +254,8 @@ fn ends_operand(t: &Tok) -> bool {
 		t.0,
 		IDENT | FLOAT | STRING_DOUBLE | STRING_SINGLE | STRING_DOUBLE_VERBATIM | STRING_SINGLE_VERBATIM | STRING_BLOCK | R_PAREN | R_BRACK | R_BRACE
 	) && !matches!(t.1.as_str(), "if" | "then" | "else" | "in" | "error" | "assert" | "local" | "function" | "for" | "import" | "importstr" | "importbin" | "tailstrict")
-		|| matches!(t.1.as_str(), "self" | "super" | "$" | "null" | "true" | "false")
+		// (`f(x) tailstrict` ends an operand: an operator after it is infix)
+		|| matches!(t.1.as_str(), "self" | "super" | "$" | "null" | "true" | "false" | "tailstrict")
 }
 /// the formatter's parser has no unary plus: turn every prefix `+` into `-`
 fn norm_unary_plus(t: &[Tok]) -> Option<Vec<Tok>> {
